@@ -13,6 +13,9 @@ SCHEMAS = [
     'struct I { y @1: u4, x @0: u2, }\nstruct A { p @0: u1, i @1: I, q @2: u3, }\nimpl can for A { id: 1, }',
     'struct A { p @0: u1, arr @1: [u3, 4], q @2: u3, }\nimpl can for A { id: 1, }',
     'struct I { x @0: u2, y @1: i3, }\nstruct A { arr @0: [I, 2], q @1: u3, }\nimpl can for A { id: 1, }',
+    # declaration orders that differ from id order: a 3-cycle (differs from its inverse), and inside array elements
+    'struct A { c @2: u1, a @0: u9, b @1: u4, }\nimpl can for A { id: 1, }',
+    'struct I { y @1: i3, z @2: u5, x @0: u2, }\nstruct A { q @1: u3, arr @0: [I, 2], }\nimpl can for A { id: 1, }',
     'struct A { a @0: u8, b @1: u8, }\nstruct B { x @0: u4, y @1: u4, }\nimpl can for A { id: 1, signal b { endianess: "big", }, }\nimpl can for B { id: 2, }',
     'struct I { a @0: u8, }\nstruct A { a @0: u8, i @1: I, }\nimpl can for A { id: 1, signal a { mux_count: 4, mux_signal: "i", }, }',
 ]
